@@ -24,7 +24,7 @@ pub fn run<C: Suite>(ctx: &mut Ctx) {
     };
     for (n, t) in shapes(max_n) {
         for kind in ["default", "sparse-u16", "derived"] {
-            for seedk in ["rng", "all-zero", "empty", "1KiB", "explicit-0", "explicit-1", "explicit-random"] {
+            for seedk in ["rng", "all-zero", "empty", "1KiB", "explicit-0", "explicit-1", "explicit-random", "explicit-deprecated-new"] {
                 if ctx.quick() && kind != "default" && !(seedk == "rng" || seedk == "explicit-0") {
                     continue;
                 }
@@ -55,7 +55,24 @@ fn item<C: Suite>(ctx: &mut Ctx, n: u16, t: u16, kind: &str, seedk: &str) {
 
     // coordinator side
     let explicit = seedk.starts_with("explicit");
-    let (params, seed): (RandomizedParams<C>, Vec<u8>) = if explicit {
+    let (params, seed): (RandomizedParams<C>, Vec<u8>) = if seedk == "explicit-deprecated-new" {
+        // the older entry point: randomizer bound to the whole signing package, sent to the participants as a value
+        #[allow(deprecated)]
+        let r = RandomizedParams::<C>::new(&vk, &pkg, &mut rng.clone());
+        match r {
+            Ok(pr) => {
+                // same source output, another package (message changed) => another randomizer
+                #[allow(deprecated)]
+                if let Ok(p2) = RandomizedParams::<C>::new(&vk, &SigningPackage::new(comms.clone(), b"another message"), &mut rng.clone()) {
+                    if p2.randomizer().serialize() == pr.randomizer().serialize() {
+                        ctx.viol("randomizer-not-bound", "deprecated-new/message", d("Randomizer::new gives the same randomizer for two different signing packages", json!({})));
+                    }
+                }
+                (pr, vec![])
+            }
+            Err(e) => return ctx.viol("honest-randomize-failed", "deprecated-new", d("RandomizedParams::new", json!({"err": format!("{e:?}")}))),
+        }
+    } else if explicit {
         let a = match seedk {
             "explicit-0" => zero::<C>(),
             "explicit-1" => one::<C>(),
